@@ -177,22 +177,8 @@ theorem appendFlat'_wf (a v : Arr α) (_ha : a.WF) (_hv : v.WF) : (a.appendFlat'
 theorem appendAxis_wf (a v : Arr α) (zero : α) (axis : Nat) (_ha : a.WF) (_hv : v.WF) {r : Arr α}
     (h : a.appendAxis v zero axis = .ok r) : r.WF := by
   unfold Arr.appendAxis at h
-  split at h
-  · cases h
-  split at h
-  · cases h
-  obtain ⟨_, _, h⟩ := bind_ok_inv h
-  obtain ⟨_, _, h⟩ := bind_ok_inv h
-  split at h
-  · cases h
-  obtain ⟨_, _, h⟩ := bind_ok_inv h
-  obtain ⟨_, _, h⟩ := bind_ok_inv h
-  dsimp only at h
-  split at h
-  · cases h
-  obtain ⟨_, _, h⟩ := bind_ok_inv h
-  obtain ⟨_, _, h⟩ := bind_ok_inv h
-  exact reshape_wf h
+  res_inv
+  wf_close
 
 theorem append_wf (a v : Arr α) (zero : α) (axis : Option Nat) (ha : a.WF) (hv : v.WF) {r : Arr α}
     (h : a.append v zero axis = .ok r) : r.WF := by
